@@ -107,22 +107,29 @@ harness!(c17_edf_lp_q, 5, |s| { edf_mono(s, Kind::Limited, &c06::QE); });
 harness!(c17_edf_fl_q, 5, |s| { edf_mono(s, Kind::Floating, &c06::QE); });
 
 // ---- increasing the divergence limit never changes an Ok result
-harness!(c17_limit_fp_q, 8, |s| {
+fn limit_fp(s: &mut Src, kind: Kind) {
     let base = any_scenario(s, &c06::Q);
     let mut more = base;
     more.limit = base.limit + s.bits(3);
-    let kind = match s.bits(3) { 0 => Kind::Preemptive, 1 => Kind::NonPreemptive, 2 => Kind::Limited, _ => Kind::Floating };
     let a = call_fp(kind, &base);
     let b = call_fp(kind, &more);
     if a.is_ok() {
         assert!(a == b);
     }
+    cover!(a.is_err() && b.is_ok(), "raising the limit turns an error into Ok");
+}
+harness!(c17_limit_fp_np_q, 8, |s| { limit_fp(s, Kind::NonPreemptive); });
+harness!(c17_limit_fp_lp_q, 8, |s| { limit_fp(s, Kind::Limited); });
+harness!(c17_limit_fifo_q, 8, |s| {
+    let base = any_scenario(s, &c06::Q);
+    let mut more = base;
+    more.limit = base.limit + s.bits(3);
     let fa = call_fifo(&base);
     let fb = call_fifo(&more);
     if fa.is_ok() {
         assert!(fa == fb);
     }
-    cover!(a.is_err() && b.is_ok(), "raising the limit turns an error into Ok");
+    cover!(fa.is_err() && fb.is_ok(), "raising the limit turns an error into Ok");
 });
 
 // ---- ROS 2 analyses: harder demand, larger blocking, less supply
@@ -177,7 +184,7 @@ pub fn register(t: &mut Table) {
         c17_fp_p_q, c17_fp_np_q, c17_fp_lp_q, c17_fp_fl_q, c17_fp_np_added_task_q, c17_fifo_q,
         c17_fp_np_t, c17_fp_lp_t, c17_fifo_t,
         c17_edf_p_q, c17_edf_np_q, c17_edf_lp_q, c17_edf_fl_q,
-        c17_limit_fp_q,
+        c17_limit_fp_np_q, c17_limit_fp_lp_q, c17_limit_fifo_q,
         c17_ros_event_source_q, c17_ros_timer_q, c17_ros_pp_q, c17_ros_chain_q, c17_ros_rr_q,
     );
 }
